@@ -44,20 +44,20 @@ type cGroup struct {
 }
 
 type cRead struct {
-	client    int
-	kind      string // get scan rscan snapscan
-	key       string
-	val       string
-	found     bool
-	pts       []kvmodel.KV
-	flushedWAL bool          // checkpoint reads: taken WithFlushedWAL
-	spans     []kvmodel.Span // range keys seen by the same iterator (profiles with range keys)
-	hasSpans  bool
-	startStep int
-	endStep   int
+	client     int
+	kind       string // get scan rscan snapscan
+	key        string
+	val        string
+	found      bool
+	pts        []kvmodel.KV
+	flushedWAL bool           // checkpoint reads: taken WithFlushedWAL
+	spans      []kvmodel.Span // range keys seen by the same iterator (profiles with range keys)
+	hasSpans   bool
+	startStep  int
+	endStep    int
 	// for snapshot reads: the snapshot's creation window
-	snapStart, snapEnd int
-	snapID             int
+	snapStart, snapEnd  int
+	snapID              int
 	visBefore, visAfter uint64
 }
 
